@@ -223,6 +223,9 @@ func runEpisode(w *bufio.Writer, id string, ep bEpisode) (lines int) {
 					ext[k] = bField(k, next+keyIdx[k])
 				}
 				all = append(all, s.Extend(ext))
+				if len(ext) != len(op.Keys) {
+					panic(fmt.Sprintf("Extend modified the Schema value it was given: %d fields before, %d after", len(op.Keys), len(ext)))
+				}
 				next += 4
 			case "base":
 				nb := z.Struct(z.Schema{"c": bField("c", next)})
